@@ -134,7 +134,7 @@ func runCheck() int {
 	if len(cts)+len(lemmas) == 0 {
 		return undecided(prop, "no contracts tagged with this property were found (contract files missing?)")
 	}
-	timeout := 10
+	timeout := 20
 	if *flagTier == "thorough" {
 		timeout = 60
 	}
